@@ -1172,6 +1172,11 @@ func (s *vsrvSession) hEvent(id uint32, what string, n int, err error) {
 		if s.advMax >= 0 && int64(s.hRunning) > s.advMax {
 			s.viol(vsrvGrpState, "handlers-exceed-max-concurrent-streams", "%d request handlers running at once, the server advertised SETTINGS_MAX_CONCURRENT_STREAMS=%d", s.hRunning, s.advMax)
 		}
+		// The bound on running handlers is the server's own configured limit; it holds whether
+		// or not the client has read (and the monitor has seen) the server's SETTINGS frame.
+		if lim := int(s.cfg.MaxConcurrentStreams); lim > 0 && s.hRunning > lim {
+			s.viol(vsrvGrpSurvive, "running-handlers-exceed-configured-limit", "%d request handlers running at once, Server.MaxConcurrentStreams=%d", s.hRunning, lim)
+		}
 		if st.malformed {
 			s.viol(vsrvGrpState, "malformed-request-reached-handler", "the request on stream %d is malformed / carries connection-specific fields but the user handler was invoked", id)
 		}
